@@ -115,7 +115,7 @@ let run (src : string) (fs : fd list) (prev : int) (hex : string) (label : strin
   | Oob -> head ^ ";r=OOB" ^ cls
   | DivZero -> head ^ ";r=DIVZERO" ^ cls
   | Bug -> head ^ ";r=MODELBUG" ^ cls
-  | Null -> head ^ ";r=null;ldes=same" ^ cls
+  | Null -> head ^ ";r=null;ldes=same;helper=same" ^ cls
   | Msg m ->
     let out = serialize m in
     let again = match inflate (n_of_int prev) fs out with
@@ -136,7 +136,7 @@ let run (src : string) (fs : fd list) (prev : int) (hex : string) (label : strin
     let stale = List.init (List.length bs + 64) (fun _ -> n_of_int 255) in
     let sh = serialize_into stale m in
     let shk = if sh = out then "same" else hex_of_bytes sh in
-    Printf.sprintf "%s;r=msg;m=%s;ser=%s;same=%s;again=%s;cap=%s;shared=%s;ldes=same%s%s%s" head (msg_str m) (hex_of_bytes out)
+    Printf.sprintf "%s;r=msg;m=%s;ser=%s;same=%s;again=%s;cap=%s;shared=%s;ldes=same;helper=same%s%s%s" head (msg_str m) (hex_of_bytes out)
       (bool01 (out = bs)) again capk shk known cls spec
 
 let handle (p : string) : string =
@@ -175,8 +175,35 @@ let handle (p : string) : string =
       | 'N' -> (match String.split_on_char ':' body with
           | [h; m] -> ent (get_by_name pids ids (name_of_hex h) (n_of_int (ios m))) | _ -> "?")
       | 'n' -> ent (get_by_name pids ids (name_of_hex body) N0)
+      | 'H' when String.length body > 0 ->
+        let rest = String.sub body 1 (String.length body - 1) in
+        (match body.[0], String.split_on_char ':' rest with
+         | 'V', [p; m] -> ent (get_by_pid pids ids (n_of_int (ios p)) (n_of_int (ios m)))
+         | 'N', [h; m] -> ent (get_by_name pids ids (name_of_hex h) (n_of_int (ios m)))
+         | 'S', [m] ->
+           let m = n_of_int (ios m) in
+           let c = int_of_n (store_count pids N0) + (if has_store ids m then int_of_n (store_count pids m) else 0) in
+           Printf.sprintf "%d/%d" c c
+         | _ -> "?")
       | _ -> "?" in
     "h=" ^ String.concat "|" (List.map one (String.split_on_char ',' ops)) ^ ";class=lookup"
+  | ["load"; _] ->
+    (* every spelling of the data directory loads the same table: the exported one *)
+    let b = Buffer.create 100000 in
+    List.iter (fun (((m, p), k), fs) ->
+        Buffer.add_string b (Printf.sprintf "%d:%d:%d:%s;" (int_of_n m) (int_of_n p) (int_of_n k) (desc_str fs))) all;
+    List.iter (fun ((m, p), nm) ->
+        Buffer.add_string b (Printf.sprintf "%d:%d:%s;" (int_of_n m) (int_of_n p)
+          (String.concat "" (List.map (fun c -> String.make 1 (Char.chr (int_of_n c))) nm)))) pids;
+    let h1 = ref 7 and h2 = ref 11 in
+    String.iter (fun c ->
+        h1 := (!h1 * 131 + Char.code c) mod 1000000007;
+        h2 := (!h2 * 257 + Char.code c) mod 998244353) (Buffer.contents b);
+    Printf.sprintf "ld=ok;ndesc=%d;npids=%d;dg=%d.%d;class=load" (List.length all) (List.length pids) !h1 !h2
+  | ["conc"; _; _] ->
+    (* decoding is a function of descriptor and bytes: concurrent decoders cannot disagree with the
+       single-threaded answer *)
+    "conc=0;items=1;class=concurrent"
   | ["store"] ->
     Printf.sprintf "ndesc=%d;npids=%d;class=store" (List.length all) (List.length pids)
   | _ -> "bad-op"
